@@ -212,8 +212,8 @@ def run(v) -> None:
         tn, td = rng.choice([(3, 1), (5, 2), (1, 1), (6, 1)])
         hists.append({"C": C, "fch1": fch1, "foff": foff, "tn": tn, "td": td, "var": vec(), "skew": vec(), "kurt": vec(), "ops": ops})
     files = []
-    for _ in range(10 if quick else 80):
-        nbits = rng.choice([1, 2, 4, 8, 32])
+    for fi in range(10 if quick else 80):
+        nbits = (1, 2, 4, 8, 32, 32, 8)[fi % 7] if fi < 7 else rng.choice([1, 2, 4, 8, 32])       # every depth in every run, float files twice
         C = rng.choice({1: [8, 16], 2: [8, 12], 4: [8, 10], 8: [8, 9, 12], 32: [8, 9]}[nbits])
         N = rng.randrange(16, 40)
         calls = []
@@ -223,8 +223,9 @@ def run(v) -> None:
             top = {1: 1, 2: 3, 4: 15, 8: 255, 32: 255}[nbits]
             labs = [100.0 - 2 * c for c in range(C)]
             L = [[int(labs[2] * 100), int(labs[1] * 100)]] if rng.random() < 0.5 else []
+            # every fill value in turn (not drawn): on float files the one beyond a byte and the negative one come first
             calls.append({"m": rng.choice(["mad", "iqrm"]), "tn": rng.choice([3, 2]), "td": 1, "L": L, "g": rng.choice(GFAM[:3]),
-                          "value": rng.choice([0, 1, top] + ([-2, 700] if nbits == 32 else [])), "gulp": rng.choice([1, 3, 7, N + 1]), "start": start, "nsamps": nsamps})
+                          "value": ([0, 1, top] + ([-2, 700] if nbits == 32 else []))[::-1][len(calls) % (5 if nbits == 32 else 3)], "gulp": rng.choice([1, 3, 7, N + 1]), "start": start, "nsamps": nsamps})
         files.append({"N": N, "C": C, "nbits": nbits, "fch1": 100, "foff": -2, "noisy": [rng.randrange(C)], "calls": calls})
     ospecs = [{"id": i, "hists": hists[i::12]} for i in range(12)]
     cspecs = [{"id": i, "seed": seed() * 37 + i, "files": files[i::6]} for i in range(6)]
